@@ -610,6 +610,12 @@ def run(index: RepoIndex, rep) -> None:
               sf.node.lineno, src(sub.rows_expr)[:100],
               'the slice shares its outer list or rows with the grid', 'slice fresh at depth 2')
     src_grid, area_e, rot_e = pipe.decompose_grid()
+    if getattr(pipe, 'state_grid_shortcut', None):
+        rep.violation('C03.R3', OBS, 'from_visibility', pipe.func.node.lineno,
+                      f'S.grid if {pipe.state_grid_shortcut}',
+                      f'when `{pipe.state_grid_shortcut}` the observation grid is the state\'s '
+                      f'own grid turned by the heading -- for FORWARD the very same rows -- and '
+                      f'the masking writes Hidden() into the state')
     rep.holds('C03.R3', f'{OBS}:from_visibility:{pipe.func.node.lineno}',
               f'masked grid = fresh slice `{src(src_grid)}.subgrid(..)` rotated')
     for o, m in sorted(geo.grid_rot.items()):
